@@ -767,6 +767,24 @@ func Gen(r *hx.Rng, tier string, w io.Writer) {
 		fmt.Fprintf(w, "load f=%s fl=- fi=-\n", f.Go)
 	}
 
+	// 5a. the second entry point, config.LoadFromViper: every option, all presence combinations,
+	// with other options in the file and on the command line
+	for _, f := range opts {
+		fmt.Fprintln(w, "reset")
+		_, has := g.flagNaming(f)
+		for _, combo := range [][2]bool{{false, true}, {true, true}, {false, false}, {true, false}} {
+			if combo[0] && !has {
+				continue
+			}
+			var sb strings.Builder
+			save := g.w
+			g.w = &sb
+			g.load(f, combo[0], combo[1], 1+r.Intn(3))
+			g.w = save
+			fmt.Fprint(w, strings.Replace(sb.String(), "load ", "loadfromviper ", 1))
+		}
+	}
+
 	// 5b. histories through one command object
 	g.sameCommand(tier)
 
